@@ -1,5 +1,7 @@
 import ZnVerif.Properties.C18
 import ZnVerif.Properties.C18Chain
+import ZnVerif.Properties.C18Lines
+import ZnVerif.Properties.C05
 open ZnVerif.Properties.C18
 #print axioms statement_sets_line
 #print axioms push_keeps_call_sites
@@ -12,3 +14,9 @@ open ZnVerif.Properties.C18
 #print axioms ZnVerif.Properties.C18Chain.call_sites_untouched
 #print axioms ZnVerif.Properties.C18Chain.depth_never_drops
 #print axioms ZnVerif.Properties.C18Chain.failed_call_keeps_its_frame
+
+-- syntax-error part: line table of the lexer, quoted line and caret of the error printer
+#print axioms ZnVerif.Properties.C18Lines.lines_table_partial
+#print axioms ZnVerif.Properties.C05.display_total
+#print axioms ZnVerif.Properties.C05.quoted_line_is_physical
+#print axioms ZnVerif.Properties.C05.caret_under_offender
